@@ -74,6 +74,41 @@ PROPS["C07"] = {
 }
 
 
+PROPS["C04"] = {
+    "module": "PropC04",
+    "theorems": ["C04_threshold", "C04_coherence_range", "C04_percents", "C04_f32_not_ge_lt"],
+    "runs": [detect_run("C04", 300, 5000, bigq=1, bigt=8)],
+    "search": detect_search("C04"),
+    "rule": DETECT_RULE + "; thresholds drawn from {0, 0.01, 0.02, 0.05, 0.1, 0.2, 0.3, 0.5, 0.8, 1} and their binary32 neighbours, "
+            "fall-back and pre-emptive switches both ways; every mess / coherence answer of the real primitives is checked against "
+            "the MessOK / CohOK contracts the theorems assume",
+    "assumptions": ["MessOK: mess_ratio returns a non-NaN non-negative f32 (asserted on every oracle answer)",
+                    "MergeOK: merged language scores are non-NaN and in [0,1] (asserted on every oracle answer)",
+                    "DecodeLen: a strict decode yields at most one character per byte (asserted on every oracle answer)",
+                    "FloatLaws (Proofs/FloatLaws.v): law_not_ge_lt is proved of the Flocq binary32 instance (C04_f32_not_ge_lt); "
+                    "law_mean_good / law_mean_single / law_self_close are hypotheses of the theorem, exercised bit-exactly by the extracted "
+                    "Flocq arithmetic on every correspondence case but not yet proved in Coq",
+                    "len b < 2^64 and threshold not NaN (the property's own well-formedness)"],
+    "trusted": [],
+}
+
+
+PROPS["C13"] = {
+    "module": "PropC13",
+    "theorems": ["C13_covering_windows_agree", "C13_chaos_function", "C13_same_text_same_chaos"],
+    "runs": [detect_run("C13", 260, 4000)],
+    "search": detect_search("C13"),
+    "rule": DETECT_RULE + "; focus C13: every case that fits its window is re-run with (1, len) and another random covering pair; "
+            "and >= 60 texts are encoded into every supported encoding that round-trips them (with / without BOM), probed alone with "
+            "the fall-back off and a covering window: accept / reject and chaos bits must coincide",
+    "assumptions": ["DecodeLen: at most one character per byte (asserted on every oracle answer)",
+                    "FloatLaws.law_mean_single ((-0 + x) / 1 = x) is a hypothesis of C13_chaos_function; it is exercised bit-exactly by the "
+                    "extracted Flocq arithmetic on every single-chunk correspondence case",
+                    "inputs up to TOO_BIG_SEQUENCE for the chaos statement; the window statement has no size bound"],
+    "trusted": [],
+}
+
+
 def _tok(line):
     return line.split(" ")
 
